@@ -137,17 +137,20 @@ pub struct Profile {
     pub session_proves: u64,
     pub nonblocking_pct: u64,
     pub bad_rollback_pct: u64,
+    pub w_compete: u64,
 }
 
 impl Default for Profile {
     fn default() -> Self {
         Profile { steps: (2, 8), pool: (6, 60), batch: (1, 24), big_pct: 12, w_commit: 70, w_reopen: 10, w_rollback: 8, w_overlay: 12, witness_pct: 30,
-            rollback: None, small_ht: false, small_segments: false, session_reads: 6, session_proves: 4, nonblocking_pct: 15, bad_rollback_pct: 15 }
+            rollback: None, small_ht: false, small_segments: false, session_reads: 6, session_proves: 4, nonblocking_pct: 15, bad_rollback_pct: 15, w_compete: 0 }
     }
 }
 
 pub struct HistGen<'a> {
     pub rng: &'a mut Rng,
+    /// configuration stream: options, warm-up / preserve hints, scheduler (C13 varies only this)
+    pub cfg: Rng,
     pub pool: Vec<Key>,
     pub probes: Vec<K>,
     pub stamp: u32,
@@ -182,6 +185,7 @@ impl<'a> HistGen<'a> {
         let item_keys: Vec<K> = b.items.iter().map(|x| x.0).collect();
         // warm-up / preserve-prior: none, subset, exact, or superset of the batch keys
         for which in 0..2 {
+            let rng = &mut self.cfg;
             let mode = rng.below(4);
             let mut v: Vec<K> = Vec::new();
             if mode >= 1 { for k in &item_keys { if mode >= 2 || rng.chance(1, 2) { v.push(*k); } } }
@@ -201,21 +205,28 @@ struct GOv { parent: Option<usize>, status: u8 /*0 live 1 committed 2 dropped*/,
 
 pub fn checks_all() -> Checks { Checks { values: true, root: true, proofs: true, witness: true, multiproof: true, reopen_equal: true, decode: false, accounting: false, intact: false, rules: false } }
 
-pub fn gen_history(prop: &str, seed: u64, prof: Profile, checks: Checks) -> Scenario {
+pub fn gen_history(prop: &str, seed: u64, prof: Profile, checks: Checks) -> Scenario { gen_history_cfg(prop, seed, seed ^ 0xC0F1_6000, prof, checks) }
+
+/// `seed` decides the history (keys, batches, steps, rollback switch and log length);
+/// `cfg_seed` decides everything the results must not depend on.
+pub fn gen_history_cfg(prop: &str, seed: u64, cfg_seed: u64, prof: Profile, checks: Checks) -> Scenario {
     let mut rng = Rng::new(seed);
     let mut r2 = rng.fork(1);
+    let mut cfg = Rng::new(cfg_seed);
     let pool_n = r2.range(prof.pool.0, prof.pool.1) as usize;
     let pool = gen_pool(&mut r2, pool_n);
     let probes = gen_probes(&mut r2, &pool, 6);
-    let opts = gen_opts(&mut r2, prof.rollback, prof.small_ht);
+    let mut opts = gen_opts(&mut cfg, prof.rollback, prof.small_ht);
+    opts.rollback = prof.rollback.unwrap_or_else(|| r2.chance(1, 2));
+    opts.max_rollback_log_len = *r2.pick(&[1u32, 2, 3, 5, 100]);
     let knobs = Knobs {
         seg_max_size: if prof.small_segments || r2.chance(1, 3) { Some(4096 * r2.range(1, 3)) } else { None },
-        grow_pages: Some(*r2.pick(&[1u64, 2, 4, 16, 256])),
+        grow_pages: Some(*cfg.pick(&[1u64, 2, 4, 16, 256])),
     };
-    let hasher = if r2.chance(1, 4) { Hasher::Sha2 } else { Hasher::Blake3 };
+    let hasher = if cfg.chance(1, 4) { Hasher::Sha2 } else { Hasher::Blake3 };
     let nsteps = r2.range(prof.steps.0, prof.steps.1) as usize;
-    let sched = if r2.chance(1, 4) { Sched::Pct(r2.range(1, 4) as usize) } else { Sched::Random };
-    let sched_seed = r2.next();
+    let sched = if cfg.chance(1, 4) { Sched::Pct(cfg.range(1, 4) as usize) } else { Sched::Random };
+    let sched_seed = cfg.next();
     let mut steps = Vec::new();
     let mut present: BTreeSet<Key> = BTreeSet::new();
     let mut past: Vec<BTreeSet<Key>> = Vec::new();
@@ -225,9 +236,11 @@ pub fn gen_history(prop: &str, seed: u64, prof: Profile, checks: Checks) -> Scen
     let mut next_ov = 0usize;
     let mut last_ov_commit: Option<usize> = None;
     let (bl, bh) = prof.batch;
-    let mut g = HistGen { rng: &mut rng, pool: pool.clone(), probes: probes.clone(), stamp: 0, prof, present: BTreeSet::new() };
+    let mut prepared: Vec<usize> = Vec::new();
+    let mut next_prep = 0usize;
+    let mut g = HistGen { rng: &mut rng, cfg, pool: pool.clone(), probes: probes.clone(), stamp: 0, prof, present: BTreeSet::new() };
     while steps.len() < nsteps {
-        let w = [g.prof.w_commit, g.prof.w_reopen, if cur_opts.rollback { g.prof.w_rollback } else { 0 }, g.prof.w_overlay];
+        let w = [g.prof.w_commit, g.prof.w_reopen, if cur_opts.rollback { g.prof.w_rollback } else { 0 }, g.prof.w_overlay, g.prof.w_compete];
         let tot: u64 = w.iter().sum();
         let mut x = g.rng.below(tot);
         let mut which = 0;
@@ -245,7 +258,9 @@ pub fn gen_history(prop: &str, seed: u64, prof: Profile, checks: Checks) -> Scen
             }
             1 => {
                 let keep = g.rng.chance(2, 3);
-                let o = regen_opts(g.rng, &cur_opts, keep);
+                let mut o = regen_opts(&mut g.cfg, &cur_opts, true);
+                if !keep { o.max_rollback_log_len = *g.rng.pick(&[1u32, 2, 3, 5, 100]); }
+                prepared.clear();
                 retained = retained.min(o.max_rollback_log_len as usize);
                 cur_opts = o.clone();
                 for (_, ov) in ovs.iter_mut() { if ov.status == 0 { ov.status = 2; } }
@@ -263,6 +278,33 @@ pub fn gen_history(prop: &str, seed: u64, prof: Profile, checks: Checks) -> Scen
                     last_ov_commit = None;
                 }
                 steps.push(Step::Rollback { n });
+            }
+            4 => {
+                // competing changesets prepared on the current base
+                let live_ov: Vec<usize> = ovs.iter().filter(|(_, o)| o.status == 0).map(|(i, _)| *i).collect();
+                let r = g.rng.below(100);
+                if prepared.is_empty() || r < 40 {
+                    let size = g.rng.range(bl, bh) as usize;
+                    let (batch, _eff) = g.batch(&present, size);
+                    prepared.push(next_prep);
+                    steps.push(Step::Prepare { id: next_prep, batch });
+                    next_prep += 1;
+                } else if r < 55 {
+                    let use_ov = !live_ov.is_empty() && g.rng.chance(1, 3);
+                    let id = if use_ov { *g.rng.pick(&live_ov) } else { *g.rng.pick(&prepared) };
+                    steps.push(Step::TryWhileSession { id, overlay: use_ov });
+                } else if r < 92 {
+                    let ix = g.rng.usize(prepared.len());
+                    let id = prepared.remove(ix);
+                    let nb = g.rng.chance(1, 2);
+                    // mirror: cannot know validity cheaply; the executor decides. Assume a stale one is rejected.
+                    steps.push(Step::CommitPrepared { id, nonblocking: nb });
+                    last_ov_commit = None;
+                } else {
+                    let ix = g.rng.usize(prepared.len());
+                    let id = prepared.remove(ix);
+                    steps.push(Step::DropPrepared { id });
+                }
             }
             _ => {
                 // overlay operation
